@@ -1,0 +1,12 @@
+//go:build verif
+
+package transforms32
+
+import "image"
+
+// Verification hooks: the unexported portable kernels.
+
+func VerifForwardDCT64Go(input []float32)  { forwardDCT64(input) }
+func VerifForwardDCT256Go(input []float32) { forwardDCT256(input) }
+
+func VerifYCbCrToGrayGo(img *image.YCbCr, pixels []float32) { yCbCrToGrayAlt(img, pixels) }
